@@ -286,6 +286,16 @@ def check_gmd_bookkeeping(ctx: Ctx, rule: str = 'C20.f') -> None:
             body = getattr(blk_owner, fld, None)
             if not (isinstance(body, list) and body and isinstance(body[0], ast.stmt)):
                 continue
+            # `a, b = x, y` counts as the two stores `a = x`, `b = y` (only targets and value texts matter for the pairing)
+            flat = []
+            for st in body:
+                if isinstance(st, ast.Assign) and len(st.targets) == 1 and isinstance(st.targets[0], ast.Tuple) and isinstance(st.value, ast.Tuple) \
+                        and len(st.targets[0].elts) == len(st.value.elts) and not any(isinstance(e, ast.Starred) for e in st.targets[0].elts):
+                    for te, ve in zip(st.targets[0].elts, st.value.elts):
+                        flat.append(ast.copy_location(ast.Assign(targets=[te], value=ve), st))
+                else:
+                    flat.append(st)
+            body = flat
             defs = {}
             for st in body:
                 if isinstance(st, ast.Assign) and len(st.targets) == 1:
@@ -519,6 +529,8 @@ MUTANTS = [
            None, benign=True),
     Mutant('gmd-strict-no-rotation-test', MISC, 'gmd', [('replace', 'if d[i] >= sigma_bar:', 'if d[i] > sigma_bar:')], r'C20\.j:gmd'),
     Mutant('benign-gmd-yoda-flag-test', MISC, 'gmd', [('replace', 'if d[i] <= sigma_bar:', 'if not d[i] > sigma_bar:')], None, benign=True),
+    Mutant('gmd-tuple-update-wrong-slot', MISC, 'gmd', [('regex', r'perm\[j\] = i\n(\s+)invperm\[i\] = j', r'perm[j], invperm[k1] = i, j')], r'C20\.f:gmd'),
+    Mutant('benign-gmd-tuple-update', MISC, 'gmd', [('regex', r'perm\[j\] = i\n(\s+)invperm\[i\] = j', r'perm[j], invperm[i] = i, j')], None, benign=True),
     Mutant('gmd-inverse-permutation-wrong-slot', MISC, 'gmd', [('replace', 'invperm[i] = j', 'invperm[k1] = j')], r'C20\.f:gmd'),
     Mutant('dBm2Linear-in-place', CONV, 'dBm2Linear', [('regex', r'    return dB2Linear\(valueIndBm\) / 1000\.0', '    valueIndBm -= 30\n    return dB2Linear(valueIndBm)')],
            r'C20\.e:dBm2Linear'),
